@@ -2,7 +2,7 @@
    primitives as (a) the original program, (b) the instrumented program under the model of the runtime,
    (c) the reference semantics; and render what is observable. *)
 From Coq Require Import String Ascii List ZArith Bool Arith.
-From DV Require Import Base.Util Engine.Dispatch Py.Syntax Py.Sem Py.Instr Concrete.CVal Concrete.CPrims.
+From DV Require Import Base.Util Engine.Dispatch Py.Syntax Py.Ops Py.Sem Py.Instr Concrete.CVal Concrete.CPrims.
 Import ListNotations.
 Open Scope string_scope.
 Open Scope list_scope.
@@ -140,7 +140,8 @@ Definition behaviour_eqb (a b : obs) : bool :=
 Definition obs_same (a b : obs) : bool := behaviour_eqb a b && list_eqb (list_eqb String.eqb) (o_dels a) (o_dels b).
 
 Definition limited (o : obs) : bool :=
-  prefixb "fuel" (o_outcome o) || prefixb "stuck:" (o_outcome o) || prefixb "exc:ModelLimit" (o_outcome o).
+  prefixb "fuel" (o_outcome o) || prefixb "stuck:" (o_outcome o) || prefixb "exc:ModelLimit" (o_outcome o)
+  || existsb (fun e => match e with h :: _ => String.eqb h "MODEL_LIMIT" | [] => false end) (o_log o).
 
 (* bit mask: 1 = I_orig<>M_orig, 2 = I_inst<>M_inst, 4 = M_inst<>S, 8 = I_inst<>I_orig (behaviour), 16 = outside the model, 32 = I_inst<>S *)
 Definition verdict (fuel : nat) (c : program * (list string * (list pana * (bool * (obs * obs))))) : nat :=
